@@ -554,6 +554,19 @@ class LoopBase(Task):
 class ImplicitLoop(LoopBase):
     kind = "implicit"
 
+    def __init__(self, g):
+        super().__init__(g)
+        # the documented time-loop idiom: a separate "old" variable that takes the
+        # new solution over with update_value() before every step
+        self.keep_old = g.rng.random() < 0.35
+        self.old = None
+
+    def protected(self):
+        s = super().protected()
+        if self.old:
+            s.add(self.old)
+        return s
+
     def make_plan(self):
         if not self.ensure_var():
             return []
@@ -562,9 +575,21 @@ class ImplicitLoop(LoopBase):
         self.spatial_plan(ops)
         self.bc_tick(ops)
         self.alpha_tick(ops)
+        src = self.v
+        if self.keep_old:
+            oe = g.w.ents.get(self.old) if self.old else None
+            if oe is None or oe.meta["mesh"] != g.mesh_of(self.v):
+                self.old = g.fresh("v")
+                ops.append({"k": "copy", "out": self.old, "outb": g.fresh("b"), "a": {"v": self.v}})
+            else:
+                ops.append({"k": "val_edit", "a": {"v": self.old, "how": "update", "src": self.v}})
+            src = self.old
         if "trans" not in self.terms or self.terms["trans"] not in g.w.ents \
-                or g.rng.random() < 0.85:
-            ops.append(self.transient_op(self.v))
+                or self.keep_old or g.rng.random() < 0.85:
+            top = self.transient_op(src, g.mesh_of(self.v))
+            if isinstance(top["a"]["args"][2], str) and top["a"]["args"][2] == src:
+                top["a"]["args"][2] = 1.0
+            ops.append(top)
         ops.append(self.solve_op(self.v))
         self.iters += 1
         return ops
